@@ -94,6 +94,8 @@ def parse_records(text, header):
             continue
         elif t[0] == "end":
             recs[cur.id] = cur; cur = None
+        elif len(t) == 2 and t[0] in ("str", "word", "bits"):
+            cur.vals[t[1]] = ("word", [])
         elif len(t) < 3:
             continue
         elif t[0] == "mat":
